@@ -50,11 +50,17 @@ Definition ends_us (n : name) : bool :=
   match rev n with x :: _ => Z.eqb x US | [] => false end.
 
 (* ---------- policies (kinds of trait) ---------- *)
-Inductive vkind := VInt | VStr.
-Definition accepts (k : vkind) (v : Z) : bool :=
+(* validators: Some w = accepted and stored as w, None = TraitError.
+   VInt = Int, VStr = Str, VCInt = CInt (a numeric string "k" is atom 100+k and converts to k),
+   VFun = any other validator (used by the theorems, never by the generated cases) *)
+Inductive vkind := VInt | VStr | VCInt | VFun (f : Z -> option Z).
+Definition validate (k : vkind) (v : Z) : option Z :=
   match k with
-  | VInt => (0 <=? v) && (v <? 100)
-  | VStr => (100 <=? v) && (v <? 200)
+  | VInt => if (0 <=? v) && (v <? 100) then Some v else None
+  | VStr => if (100 <=? v) && (v <? 200) then Some v else None
+  | VCInt => if (0 <=? v) && (v <? 100) then Some v
+             else if (100 <=? v) && (v <? 200) then Some (v - 100) else None
+  | VFun f => f v
   end.
 
 Inductive policy :=
@@ -214,8 +220,12 @@ Section Object.
   Definition setattr (s : state) (n : name) (p : policy) (v : Z) : state * obs :=
     match p with
     | PPython | PAny _ => out (set_od s (aset n v (s_od s))) n Done
-    | PTyped k _ => if accepts k v then out (set_od s (aset n v (s_od s))) n Done
-                    else out s n (Raise TraitError)             (* setattr_trait l.2447-2451 *)
+    | PTyped k _ =>                                             (* setattr_trait l.2444-2454 *)
+        if Z.eqb v VUndef then out (set_od s (aset n v (s_od s))) n Done   (* Undefined is not validated *)
+        else match validate k v with
+             | Some w => out (set_od s (aset n w (s_od s))) n Done
+             | None => out s n (Raise TraitError)
+             end
     | PDisallow => out s n (Raise TraitError)
     | PConstant _ => out s n (Raise TraitError)
     | PEvent => out s n Done                                    (* setattr_event: nothing stored *)
